@@ -14,7 +14,7 @@ ASSUMPTIONS = [
     "re-injected messages (priority below the default 20, addressed to the computation itself) are handled before any later reception, in injection order -- the (priority, counter) order of Messaging, checked by C18",
     "messages are opaque tokens; 2 senders and 2 targets; the time stamp of each reception is an arbitrary real (symbolic)",
 ]
-BOUNDS = {"quick": "every history of <= 6 operations over {recv s0, recv s1, post t0, post t1, pause, resume, start}; synchronous computation: histories of <= 5 operations, cycles 0 and 1",
+BOUNDS = {"quick": "every history of <= 6 operations over {recv s0, recv s1, post t0, post t1, pause, resume, start}, with pairwise different messages and with messages that all compare equal; synchronous computation: histories of <= 5 operations, cycles 0 and 1",
           "thorough": "every history of <= 8 operations; synchronous computation: <= 7 operations"}
 OUTSIDE = "longer histories, a stop()/restart cycle, periodic actions"
 CAP_S = {"quick": 900, "thorough": 7200}
@@ -25,6 +25,8 @@ def jobs(tier):
     out = [{"name": "histories-%d" % n, "length": n} for n in ([6] if tier == "quick" else [6, 8])]
     # the hand-over of a re-injected message is an operation of its own: pause / resume / start may come in between
     out.append({"name": "histories-lane-%d" % (6 if tier == "quick" else 7), "length": 6 if tier == "quick" else 7, "lane_ops": True})
+    # messages that compare equal (same type and content): each reception / post is still a message of its own
+    out.append({"name": "histories-equal-%d" % (6 if tier == "quick" else 7), "length": 6 if tier == "quick" else 7, "equal_content": True})
     # a synchronous computation (SynchronousComputationMixin): what start() and a cycle switch post while paused
     out.append({"name": "sync-histories-%d" % (5 if tier == "quick" else 7), "length": 5 if tier == "quick" else 7, "sync": True})
     return out
@@ -158,13 +160,13 @@ def run(eng, p):
                 comp.on_message(src, msg, float(step))
                 continue
             if op.startswith("recv"):
-                tok = "m%d" % len(received)
+                tok = "same" if p.get("equal_content") else "m%d" % len(received)
                 received.append(("s" + op[-1], tok))
                 # the time stamp handed to on_message is the time the message was queued, unrelated to the hand-over order
                 # (priorities): an arbitrary real
                 comp.on_message("s" + op[-1], Message("tok", tok), eng.sym_real("t_%d" % len(received), 0, 1000))
             elif op.startswith("post"):
-                tok = "p%d" % len(posted)
+                tok = "same" if p.get("equal_content") else "p%d" % len(posted)
                 posted.append(("t" + op[-1], tok))
                 comp.post_msg("t" + op[-1], Message("tok", tok))
             elif op == "pause":
